@@ -348,6 +348,8 @@ class Prop(Check):
     THEOREMS = [
         "Imp.C25_lookup",
         "Imp.C25_lookup_general",
+        "Imp.C25_lookup_cyclic_false",
+        "Imp.C25_all_rules",
         "Imp.C25_qualified",
         "Imp.C25_getitem",
         "Imp.C25_once",
